@@ -19,6 +19,7 @@ func main() {
 	commands["relay"] = cmdRelay
 	commands["activation"] = cmdActivation
 	commands["addr"] = cmdAddr
+	commands["idl"] = cmdIdl
 	commands["acthelper"] = cmdActHelper
 	if len(os.Args) < 2 {
 		fmt.Fprintln(os.Stderr, "usage: vdriver <command> [flags]")
